@@ -15,6 +15,10 @@ type Pool struct {
 	stopM     sync.Mutex
 	lazySendM sync.Mutex
 	listM     sync.Mutex
+	// sendM orders a Send's registration in sendWg with Stop's cancellation: once Stop has
+	// cancelled the context under the write lock no Send adds itself any more, so Stop's
+	// sendWg.Wait never runs concurrently with an Add that starts from zero.
+	sendM sync.RWMutex
 
 	el   core.List[Event]
 	pool core.Pool[core.Node[Event]]
